@@ -17,8 +17,9 @@ EXPLANATION = (
     "are cursor positions / span ends (char boundaries); `position - 1` only directly after a single-byte character. "
     "R4 (LOOP): every CFG cycle on the path contains a call that consumes a finite input. R5: the statement counter is "
     "guarded before it can exceed 16 bits."
-    " R1's ledger entries may name the match arm that must dominate the site (a slice justified by 'the token is a string literal' must sit inside that arm); thread-local re-entrancy is a ledger site. R6: every label of an assembler diagnostic (LabeledSpan::at / at_offset / new in lace::error) is a token span handed to the constructor or an offset built from the source length that cannot pass its end (len, len of a trimmed part, checked_sub/saturating_sub of it, 0)."
+    " R1's ledger entries may name the match arm that must dominate the site (a slice justified by 'the token is a string literal' must sit inside that arm); thread-local re-entrancy is a ledger site. R6: every label of an assembler diagnostic (LabeledSpan::at / at_offset / new in lace::error) is a token span handed to the constructor or an offset built from the source length that cannot pass its end (len, len of a trimmed part, checked_sub/saturating_sub of it, 0). R2a also: Air::backpatch reaches its returns only through the walk over the whole statement list. R3b: Cursor::new keeps its parameter as the text it walks (src, chars and both sizes are those of the parameter), so spans index the very text the parser and the diagnostics slice."
 )
+
 NOT_DECIDED = "termination as such (R4 is its structural part), the wording of diagnostics, memory exhaustion; miette's rendering is external code"
 
 ENTRIES = ["lace::parser::AsmParser::new", "lace::parser::AsmParser::parse", "lace::air::Air::backpatch",
@@ -96,6 +97,19 @@ def run(ctx):
         ctx.violation("unfilled-variants|%s" % "+".join(sorted(label_variants - reach_fill)), bp.file_line(),
                       "AsmLine::backpatch does not resolve the label of %s: emit then panics with \"Tried to offset unfilled label\" "
                       "(or encodes a stale reference)" % sorted(label_variants - reach_fill))
+    # ... and the pass over the statements is not skipped: in Air::backpatch every path to a return goes through the walk over the whole
+    # statement list (its `next()` / try_for_each / for_each), so no flag or shortcut can leave a label unresolved
+    ab = ctx.fn("lace::air::Air::backpatch")
+    walk = {b for b, t, c in ab.calls() if c and (re.search(r"IterMut<'a, T> as core::iter::traits::iterator::Iterator>::(next|try_for_each|for_each)$", c)
+                                                 or re.search(r"Iterator>?::(try_for_each|for_each)$", c))}
+    rets_ab = {b for b in ab.live_blocks() if ab.term(b)["k"] == "return"}
+    ctx.instance(1)
+    okw = bool(walk) and not (ab.reachable(0, avoid=walk) & rets_ab)
+    ctx.oblig(okw, {"Air::backpatch": "every return behind the walk over the statement list"}, "must-pass-through")
+    if not okw:
+        pth = ab.path(0, rets_ab, avoid=walk) if walk else None
+        ctx.violation("backpatch-skipped", ab.file_line(), "Air::backpatch can return without walking the statement list%s: a label operand stays unfilled and emit panics with "
+                      "\"Tried to offset unfilled label\" (or an undefined label goes unreported)" % (" (lines %s)" % ab.path_lines(pth) if pth else ""))
     # the fill result is propagated with `?`
     for fb in filled:
         okc = kit.result_is_consumed(bp, fb)
@@ -227,6 +241,32 @@ def run(ctx):
     ctx.finish_rule()
 
     # ------------------------------------------------------------------ R4
+    # spans are offsets into the text the cursor walks; the parser slices the text it was given with them. Both are the same text only if
+    # the cursor keeps its parameter as it is (no prefix stripped, no trimming): src = the parameter, chars over the parameter, sizes = its length
+    ctx.rule("C05.R3b", "the cursor walks exactly the text it is given", floor=1)
+    cn = ctx.fn("lace::lexer::cursor::Cursor::<'sess>::new")
+    aggs_cn = [s_ for b, i, s_ in cn.assigns() if s_["r"]["k"] == "agg" and str(s_["r"].get("adt", "")).endswith("lexer::cursor::Cursor")]
+    ctx.instance(1)
+    okc, whyc = len(aggs_cn) == 1, "the constructor does not build exactly one Cursor"
+    if okc:
+        for fname, op in zip(aggs_cn[0]["r"].get("fields", []), aggs_cn[0]["r"]["ops"]):
+            e_ = kit.strip_refs(cn.expr(op, 8))
+            if fname == "src":
+                good = e_[0] == "arg" and e_[1] == 1
+            elif fname == "chars":
+                good = e_[0] == "call" and str(e_[1]).endswith("str>::chars") and kit.strip_refs(e_[2][0])[:2] == ("arg", 1)
+            elif "usize" in str(cn.local_ty(op["p"]["l"]) if op.get("p") and not op["p"].get("pr") else "usize"):
+                good = e_[0] == "call" and str(e_[1]).endswith("str>::len") and kit.strip_refs(e_[2][0])[:2] == ("arg", 1)
+            else:
+                good = True
+            if not good:
+                okc, whyc = False, "field `%s` is `%s`, not derived from the whole text handed in" % (fname, expr_str(e_, 60))
+    ctx.oblig(okc, {"Cursor::new": "src, chars and sizes are those of the parameter"}, "field by field")
+    if not okc:
+        ctx.violation("cursor-other-text", cn.file_line(), "Cursor::new does not walk exactly the text it is given (%s): token spans then index another text than the one the "
+                      "parser and the diagnostics slice with them - a span can end inside a character (panic) or show the wrong source" % whyc)
+    ctx.finish_rule()
+
     ctx.rule("C05.R4", "every loop on the assembler path consumes input", floor=6)
     scope = [n for n in L.reach]
     M = must_consume(ctx, scope)
